@@ -15,6 +15,16 @@ FINDINGS = os.path.join(ROOT, "known_findings.json")
 RECURSION_LIMIT = 30000
 
 
+def disable_expr_traces():
+    """Every pyteal Expr constructor calls traceback.format_stack() (for error messages only); that is 80% of the
+    cost of building a program.  The explorer replaces the *stdlib* function by a constant - no PyTeal code is
+    touched and no property observes Expr.trace."""
+    import traceback
+    if os.environ.get("VERIF_KEEP_TRACES") == "1":
+        return
+    traceback.format_stack = lambda *a, **k: ["<definition trace disabled by /verif explorer>\n", ""]
+
+
 def seed():
     try:
         return int(os.environ.get("VERIF_SEED", "0"))
@@ -76,7 +86,9 @@ _WORK_ITEMS = None
 
 
 def _init_worker(lim):
+    import gc
     sys.setrecursionlimit(lim)
+    gc.set_threshold(int(os.environ.get("VERIF_GC0", "20000")), 20, 50)
 
 
 def _run_shard(idx_range):
@@ -115,6 +127,9 @@ def pmap_shards(fn, items, shard_size=None, jobs=None, recursion_limit=RECURSION
             out.append(v)
         return out
     ctx = mp.get_context("fork")
+    import gc
+    gc.collect()
+    gc.freeze()  # keep the parent's heap out of the children's collections (no COW storms)
     with ctx.Pool(jobs, initializer=_init_worker, initargs=(recursion_limit,)) as pool:
         for k, v in pool.imap_unordered(_run_shard, ranges):
             if k == "err":
